@@ -289,7 +289,167 @@ def check_c01(run):
         rule="structured HashMap histories (fill / churn / tombstone / lookup / misc phases) under 8 hash-plan classes (well mixed, constant 0, constant MAX, 4 start positions, one tag, wrap-around positions, tag t vs t^1, sequential), key universes 6..130, drop and no-drop element types; every step: model_step(pre-state dump) = post-state dump bit for bit (level C), wf_check on the post-state (B), AssocSpec acceptor on the return value and contents (A). distinct = distinct (operation, pre-state, fault arming) triples",
         partial_note=None)
 
+
+# ------------------------------------------------------------------------------------------------
+# C18: scanner primitives + cross-backend observables
+# ------------------------------------------------------------------------------------------------
+def c18_oracle(gw, line):
+    q, _, r = line.partition(" = ")
+    w = q.split()
+    if w[0] != "grp":
+        return None
+    op = w[1]
+    g = [int(w[2][2 * i:2 * i + 2], 16) for i in range(gw)]
+    r = r.strip()
+    if op == "convert":
+        want = "".join("80" if b < 128 else "ff" for b in g)
+        return None if r[:2 * gw] == want else f"convert({w[2][:2*gw]}) = {r[:2*gw]}, byte-wise definition gives {want}"
+    m = dict(x.split("=") for x in r.split())
+    it = [] if m["iter"] == "-" else [int(x) for x in m["iter"].split(",")]
+    if it != sorted(set(it)) or any(j >= gw for j in it):
+        return f"{op}({w[2][:2*gw]}): iteration order {it} is not strictly ascending below the width"
+    valid = all(b < 128 or b in (128, 255) for b in g)
+    if op == "match_tag":
+        t = int(w[3])
+        true = [j for j in range(gw) if g[j] == t]
+        if any(j not in it for j in true):
+            return f"match_tag({w[2][:2*gw]}, {t}) misses a true match: {it} vs {true}"
+        for j in it:
+            if j not in true:
+                if gw == 16:
+                    return f"SSE2 match_tag({w[2][:2*gw]}, {t}) reports non-matching byte {j}"
+                if (g[j] ^ t) != 1 or not any(i < j for i in true):
+                    return f"match_tag({w[2][:2*gw]}, {t}) reports byte {j} = {g[j]:#x}: not the documented false positive"
+        want = it
+    elif op == "match_empty":
+        if not valid:
+            return None
+        want = [j for j in range(gw) if g[j] == 255]
+    elif op == "match_eod":
+        want = [j for j in range(gw) if g[j] >= 128]
+    elif op == "match_full":
+        want = [j for j in range(gw) if g[j] < 128]
+    else:
+        return None
+    if it != want:
+        return f"{op}({w[2][:2*gw]}) = {it}, byte-wise definition gives {want}"
+    anyb = int(m["any"]) == 1
+    low = None if m["low"] == "-" else int(m["low"])
+    if anyb != bool(want) or low != (want[0] if want else None):
+        return f"{op}({w[2][:2*gw]}): any_bit_set/lowest_set_bit = {m['any']}/{m['low']} disagree with {want}"
+    if op == "match_empty":
+        lz = next((k for k in range(gw) if g[gw - 1 - k] == 255), gw)
+        tz = next((k for k in range(gw) if g[k] == 255), gw)
+        if int(m["lz"]) != lz or int(m["tz"]) != tz:
+            return f"match_empty({w[2][:2*gw]}): leading/trailing zeros {m['lz']}/{m['tz']}, byte-wise {lz}/{tz}"
+    return None
+
+def normalize_ret(op, ret):
+    if ret.startswith("list "):
+        items = ret[5:].split(",")
+        return "list " + ",".join(sorted(items))
+    return ret
+
+def check_c18(run):
+    pid = "C18"
+    cs = H.coq_stage(run, pid)
+    okd, driver = H.build_driver()
+    findings, queries, mism, kinds, samples = [], 0, 0, {}, []
+    exes = {}
+    build_problem = None
+    for v, gw in (("sse2-debug", 16), ("generic-debug", 8)):
+        okh, exe = H.build_harness(v)
+        if not okh:
+            build_problem = f"harness build failed for {v}: {str(exe)[-300:]}"
+            continue
+        exes[v] = exe
+        rng = random.Random(run.seed * 17 + gw)
+        qs = gen_arith.c18(run.tier, rng, gw)
+        qp = os.path.join(run.wdir, f"q_{v}.txt"); ap = os.path.join(run.wdir, f"a_{v}.txt")
+        open(qp, "w").write("\n".join(qs) + "\n")
+        rc = subprocess.run([exe, "arith"], stdin=open(qp), stdout=open(ap, "w"), stderr=subprocess.PIPE)
+        for line in open(ap):
+            if " = " not in line:
+                continue
+            queries += 1
+            viol = c18_oracle(gw, line.rstrip("\n"))
+            if viol:
+                findings.append((v, line.strip(), viol))
+        if okd:
+            rc2, out = H.sh([driver, "arith", ap], timeout=1800)
+            fs, st, o, _ = H.parse_findings(out)
+            mism += st.get("mismatches", 0)
+            for k, val in o.items():
+                kinds[k] = kinds.get(k, 0) + val
+            run.notes += [f"{v}: {f.kind} {f.text[:300]}" for f in fs[:3]]
+        if not samples:
+            samples = [l.strip() for l in open(ap).read().split("\n")[1:5]]
+    # same histories on both back-ends: equal return values, lengths, contents
+    cross_steps = 0
+    cross_findings = []
+    if len(exes) == 2:
+        text = corpus_text(pid) + gen_map_scripts(run.tier, run.seed * 1000 + 18, "both")
+        sp = os.path.join(run.wdir, "cross.script"); open(sp, "w").write(text)
+        traces = {}
+        for v, exe in exes.items():
+            tp = os.path.join(run.wdir, f"cross_{v}.trace")
+            H.run_trace(exe, sp, tp)
+            cur, rows = None, {}
+            op = None
+            for l in open(tp, errors="replace"):
+                if l.startswith("SCRIPT "):
+                    cur = l.split()[1]
+                elif l.startswith("STEP "):
+                    w = l.split(); op = w[2]; key = (cur, int(w[1]))
+                elif l.startswith("RET "):
+                    rows[key] = [op, normalize_ret(op, l[4:].strip()), None]
+                elif l.startswith("POST "):
+                    m1 = re.search(r" i=(\d+) .* s=(\S+)", l)
+                    if m1 and key in rows:
+                        cont = sorted(":".join(x.split(":")[1:]) for x in m1.group(2).split(";")) if m1.group(2) != "-" else []
+                        rows[key][2] = (m1.group(1), cont)
+            traces[v] = rows
+        a, b = traces["sse2-debug"], traces["generic-debug"]
+        for key in a:
+            if key not in b:
+                continue
+            cross_steps += 1
+            op = a[key][0]
+            if op in ("capacity", "allocsize", "drain", "extractif"):
+                ra, rb = "", ""
+            else:
+                ra, rb = a[key][1], b[key][1]
+            if ra != rb or (a[key][2] != b[key][2] and op not in ("extractif", "drain")):
+                cross_findings.append((key, op, a[key], b[key]))
+    if findings or cross_findings:
+        n = 0
+        for v, line, viol in findings[:2]:
+            p = run.write_replay(f"replay_{n}.txt", f"# arith\n# property C18 violated: {viol}\n# variant: {v}\n{line.split(' = ')[0]}\n")
+            run.violation(p); n += 1
+        for key, op, ra, rb in cross_findings[:1]:
+            blk = H.block_by_name(H.split_scripts(text), key[0]) or ""
+            p = run.write_replay(f"replay_{n}.txt", f"# property C18 violated: step {key[1]} ({op}) of script {key[0]} differs between back-ends: sse2 {ra[1:]} portable {rb[1:]}\n# variant: generic-debug\n" + blk)
+            run.violation(p); n += 1
+    elif not cs["ok"] or mism or build_problem or not okd:
+        text2 = "# property C18: no failing input found, but the property is no longer shown to hold.\n"
+        for w in cs["problems"] + run.notes + ([build_problem] if build_problem else []):
+            text2 += "# broken: " + w.replace("\n", " ") + "\n"
+        p = run.write_replay("replay_unproved.txt", text2)
+        run.violation(p, "no-failing-input-found")
+    cov = {
+        "obligations": cs["obligations"], "discharged": cs["discharged"],
+        "checker_cmd": "cd /verif/coq && make theories/Properties/C18.vo && coqc -Q theories HB theories/Properties/C18.v  (Print Assumptions)",
+        "trusted_base": H.TRUSTED_BASE,
+        "evaluations": queries + cross_steps, "distinct_nontrivial": queries,
+        "rule": "scanner primitives: all 2-byte windows at every byte position (stride by tier) x fills, plus random groups of valid control bytes with tags drawn from the group, for match_tag / match_empty / match_empty_or_deleted / match_full / convert and the BitMask queries (iteration order, any_bit_set, lowest_set_bit, leading/trailing zeros); answered by both real back-ends (hook wrappers; portable one selected with --cfg miri), compared with the extracted Gen.* definitions (translator tie) and judged by the byte-wise definitions (property oracle). cross-backend: the same generated HashMap histories run on both back-ends, return values / len / contents compared step by step",
+        "samples": samples, "translator_mismatches": mism, "query_kinds": kinds, "cross_backend_steps": cross_steps,
+        "proof_problems": cs["problems"], "cone_files": cs.get("files", []), "print_assumptions_closed": cs.get("assumptions_closed"),
+        "partial": "semantics of the six SSE2 intrinsics are trusted as documented (Base/Sse2.v); identical observables across back-ends for whole histories is carried by the C01/C06 refinement theorems being stated for every BackendSpec back-end plus the run-time cross-check here",
+    }
+    return H.finish(run, cov, "proof", assumptions=[cov["partial"]])
+
 PROPS = {
     "C17": check_c17,
     "C01": check_c01,
+    "C18": check_c18,
 }
